@@ -374,3 +374,94 @@ def c12_sum_family_counts_numeric_text(w, v):
     name = v['sig'].split(':')[0]
     return name in ('SUM', 'PRODUCT', 'SUMSQ', 'SUMPRODUCT') and \
         w.get('matches_when_numeric_text_in_references_counts') is True
+
+
+@matcher('c17_function_reads_model_solution')
+def c17_function_reads_model_solution(w, v):
+    """A function compiled from a model keeps the model's dispatcher as the
+    value of its SELF node: ranges spanning >= 2 unpopulated cells are
+    assembled from the *model's* last solution, so a calculate() of the model
+    that supplied a value for such a cell shows through in later calls."""
+    if not v['sig'].startswith('differs-from-fresh:function:') or \
+            w.get('operation') != 'call':
+        return False
+    case = w.get('case') or {}
+    if case.get('circular'):
+        return False
+    from . import wbrun
+    from .ref import workbook as rw
+    from .props.c08 import _rect_nodes
+    desc = case['desc']
+    ev = rw.Evaluator(desc)
+    side, step = w.get('side'), w.get('step')
+    blanks = set()
+    for s_, op, arg in case['history'][:step]:
+        if s_ != side or op != 'model_calc_x':
+            continue
+        for kind, key, _val in arg:
+            if kind in ('cell', 'formula-cell'):
+                cells = [tuple(key)]
+            elif kind == 'range':
+                b, s, c1, r1, c2, r2 = key
+                cells = [(b, s, c, r) for c in range(c1, c2 + 1) for r in range(r1, r2 + 1)]
+            else:
+                node = desc['names'][key[0]]
+                if node[0] == 'cell':
+                    cells = [tuple(node[1:5])]
+                else:
+                    b, s, c1, r1, c2, r2 = node[1:7]
+                    cells = [(b, s, c, r) for c in range(c1, c2 + 1)
+                             for r in range(r1, r2 + 1)]
+            blanks |= {k for k in cells if not ev.populated(k)}
+    if not blanks:
+        return False
+    # the SELF path: a rectangle read by a formula with >= 2 unpopulated cells
+    sparse = set()
+    for b, s, c1, r1, c2, r2 in _all_rects(desc):
+        cells = [(b, s, c, r) for c in range(c1, c2 + 1) for r in range(r1, r2 + 1)]
+        un = [k for k in cells if not ev.populated(k)]
+        if len(un) >= 2:
+            sparse |= set(un)
+    hit = blanks & sparse
+    if not hit:
+        return False
+    down = {gw_key(desc, k) for k in wbrun.downstream(desc, hit)}
+    return w.get('cell') in down
+
+
+def gw_key(desc, k):
+    from .gen import workbooks as gw
+    return gw.key_of(desc, *k)
+
+
+def _all_rects(desc):
+    """Every rectangle some formula reads: rng nodes of any size (<= 400
+    cells), rectangle-valued names, whole rows clipped to columns 1..12."""
+    from .gen import workbooks as gw
+    out = set()
+
+    def walk(t):
+        if not isinstance(t, list) or not t:
+            return
+        k = t[0]
+        if k == 'rng':
+            if (t[5] - t[3] + 1) * (t[6] - t[4] + 1) <= 400:
+                out.add(tuple(t[1:7]))
+        elif k == 'row':
+            out.add((t[1], t[2], 1, t[3], 12, t[4]))
+        elif k == 'name':
+            node = desc['names'].get(t[1])
+            if node and node[0] == 'val':
+                walk(node[2])
+            elif node:
+                walk(node)
+        elif k == 'bin':
+            walk(t[2])
+            walk(t[3])
+        elif k == 'call':
+            for a in t[2]:
+                walk(a)
+    for b, s, addr, cell in gw.iter_cells(desc):
+        if 'f' in cell:
+            walk(cell['f'])
+    return sorted(out)
